@@ -5,6 +5,9 @@ import Poulpy.Lemmas.MulTensor
 import Poulpy.Lemmas.EpBridge
 import Poulpy.Lemmas.MaskAnd
 import Poulpy.Props.C03
+import Poulpy.Lemmas.GadgetCore
+import Poulpy.Lemmas.MulNorm
+import Poulpy.Props.C02
 import Poulpy.Props.C07
 
 /-!
@@ -321,6 +324,173 @@ theorem relin_product_phase_dsize_gt1 (sk : List Poly) (a : List Col) (g : GGLWE
 example : Ks.phaseRow [] ((Core.gglweProductDft [[[2], [1]]]
       { base2k := 4, n := 1, colsIn := 1, colsOut := 1, dsize := 2, dnum := 1, size := 3, cells := [[[[3], [0], [0]]]] } 3
         [[[9], [9], [9]]]).map (fun col => limbOr0 1 col 0)) = [3] := by decide
+
+/-! ## Value theorems per entry point: product value, accumulator, final normalisation -/
+
+/-- **`relin_product_value`** — relinearisation, every key digit size: if tensor-key row `r`, pair column `p` has phase value
+`σ_p·β^{S−(r+1)·dsize} + E_{p,r}` under the target secret (`σ_p = s_i·s_j` for the pair `p = (i, j)`: checked cell by cell by the oracle), the
+executed gadget product has phase value `Σ_p σ_p·usedVal(a_p) + Σ_p (Σ_r digit·E − dropped − β^S·head)`: the pair columns of the tensor are
+re-encrypted under `s` with the explicit gadget error, for any prior content of `res_dft`. -/
+theorem relin_product_value (N : Nat) (sk : List Poly) (a : List Col) (g : GGLWE) (res0 : List Col)
+    (β : Ks.R N) (σ : ℕ → Ks.R N) (E : ℕ → ℕ → Ks.R N)
+    (hd : 1 ≤ g.dsize) (hN : 0 < N) (hn : g.n = N) (hc : 0 < g.colsOut)
+    (h0 : shapeOk g.n g.colsOut g.size res0 = true) (hM : ∀ j q, (g.toPMat.entry j q).length = N)
+    (hS : g.dnum * g.dsize ≤ g.size)
+    (hkey : ∀ i, i < g.colsIn → ∀ r, r < g.dnum →
+      Gadget.val β g.size (Ks.keyPhase N sk g.toPMat i r) = 1 * σ i * β ^ (g.size - (r + 1) * g.dsize) + E i r) :
+    ∑ l ∈ Finset.range g.size,
+        Ks.ι N (Ks.phaseRow sk ((Core.gglweProductDft a g g.size res0).map (fun col => limbOr0 N col l))) * β ^ (g.size - 1 - l)
+      = 1 * ∑ i ∈ Finset.range g.colsIn,
+            σ i * Gadget.usedVal β g.size g.dsize g.dnum (a.getD 0 []).length (Ks.inLimb N (mkBuf g.n g.colsIn (a.getD 0 []).length a) i)
+        + ∑ i ∈ Finset.range g.colsIn,
+            (∑ r ∈ Finset.range g.dnum,
+                Gadget.digit β g.dsize g.dnum (a.getD 0 []).length (Ks.inLimb N (mkBuf g.n g.colsIn (a.getD 0 []).length a) i) r * E i r
+              - Gadget.dropped β g.size g.dsize g.dnum (a.getD 0 []).length
+                  (Ks.inLimb N (mkBuf g.n g.colsIn (a.getD 0 []).length a) i) (Ks.keyPhase N sk g.toPMat i)
+              - β ^ g.size * Gadget.head β g.dsize g.dnum (a.getD 0 []).length
+                  (Ks.inLimb N (mkBuf g.n g.colsIn (a.getD 0 []).length a) i) (Ks.keyPhase N sk g.toPMat i)) :=
+  gglweProductDft_value N sk a g res0 β 1 σ E hd hN hn hc h0 hM hS hkey
+
+/-- a one-pair tensor key with `dsize = 2` -/
+def exTsk : GGLWE := { base2k := 4, n := 1, colsIn := 1, colsOut := 2, dsize := 2, dnum := 1, size := 3, cells := [[[[1], [0], [0]], [[0], [1], [0]]]] }
+
+example (β : Ks.R 1) (σ : ℕ → Ks.R 1) :
+    ∑ l ∈ Finset.range 3,
+        Ks.ι 1 (Ks.phaseRow [[1]] ((Core.gglweProductDft [[[2], [1]]] exTsk 3 (zeroCols 1 2 3)).map (fun col => limbOr0 1 col l))) * β ^ (3 - 1 - l)
+      = 1 * ∑ i ∈ Finset.range 1, σ i * Gadget.usedVal β 3 2 1 2 (Ks.inLimb 1 (mkBuf 1 1 2 [[[2], [1]]]) i)
+        + ∑ i ∈ Finset.range 1,
+            (∑ r ∈ Finset.range 1, Gadget.digit β 2 1 2 (Ks.inLimb 1 (mkBuf 1 1 2 [[[2], [1]]]) i) r *
+                (Gadget.val β 3 (Ks.keyPhase 1 [[1]] exTsk.toPMat i r) - 1 * σ i * β ^ (3 - (r + 1) * 2))
+              - Gadget.dropped β 3 2 1 2 (Ks.inLimb 1 (mkBuf 1 1 2 [[[2], [1]]]) i) (Ks.keyPhase 1 [[1]] exTsk.toPMat i)
+              - β ^ 3 * Gadget.head β 2 1 2 (Ks.inLimb 1 (mkBuf 1 1 2 [[[2], [1]]]) i) (Ks.keyPhase 1 [[1]] exTsk.toPMat i)) :=
+  relin_product_value 1 [[1]] [[[2], [1]]] exTsk (zeroCols 1 2 3) β σ
+    (fun i r => Gadget.val β 3 (Ks.keyPhase 1 [[1]] exTsk.toPMat i r) - 1 * σ i * β ^ (3 - (r + 1) * 2))
+    (by decide) (by decide) rfl (by decide) (by decide) (Ks.entry_length exTsk.toPMat 1 rfl (by decide +kernel)) (by decide)
+    (by intro i _ r _; exact (add_sub_cancel _ _).symm)
+
+/-- `glwe_tensor_relinearize` as "accumulator, then one normalisation per column": the accumulator is the executed gadget product with the
+tensor's first `rank+1` columns (radix-converted if needed) added limb-wise. -/
+theorem relinearize_accumulator (big128 : Bool) (n rb rs : Nat) (a : List Col) (ab : Nat) (g : GGLWE) (res0 res : List Col)
+    (h : relinearize big128 n rb rs a ab g g.size res0 = some res) :
+    ∃ aD acc : List Col,
+      (List.range g.colsOut).mapM (fun i =>
+        if ab = g.base2k then some (bigAddSmallAssign big128 ((Core.gglweProductDft aD g g.size res0).getD i []) (a.getD i []))
+        else (normalizeCol? g.base2k (((a.getD 0 []).length * ab + g.base2k - 1) / g.base2k) 0 (a.getD i []) ab n).map
+          (fun c => bigAddSmallAssign big128 ((Core.gglweProductDft aD g g.size res0).getD i []) c)) = some acc ∧
+      acc.mapM (fun c => bigNormalizeOff big128 n rb rs 0 c g.base2k) = some res := by
+  unfold relinearize at h
+  simp only [Option.bind_eq_some_iff] at h
+  obtain ⟨aD, _, acc, hacc, hres⟩ := h
+  exact ⟨aD, acc, hacc, hres⟩
+
+example : ∃ aD acc : List Col,
+    (List.range 2).mapM (fun i => if 4 = 4 then some (bigAddSmallAssign false ((Core.gglweProductDft aD exTsk 3 (zeroCols 1 2 3)).getD i [])
+        ([[[1], [0]], [[0], [1]], [[2], [1]]].getD i []))
+      else (normalizeCol? 4 ((2 * 4 + 4 - 1) / 4) 0 ([[[1], [0]], [[0], [1]], [[2], [1]]].getD i []) 4 1).map
+        (fun c => bigAddSmallAssign false ((Core.gglweProductDft aD exTsk 3 (zeroCols 1 2 3)).getD i []) c)) = some acc ∧
+    acc.mapM (fun c => bigNormalizeOff false 1 4 3 0 c 4) = some [[[2], [0], [0]], [[2], [2], [0]]] := by
+  have h : relinearize false 1 4 3 [[[1], [0]], [[0], [1]], [[2], [1]]] 4 exTsk 3 (zeroCols 1 2 3) = some [[[2], [0], [0]], [[2], [2], [0]]] := by
+    decide +kernel
+  exact relinearize_accumulator false 1 4 3 _ 4 exTsk _ _ h
+
+/-- **`relin_result_phase_modulo_norm`** — the relinearised **ciphertext**: its phase relates to the exact phase of the accumulator
+(`relin_product_value` + the tensor's first columns) as the C08 kernel relates the columns, `A·val(out) = B·val(acc) + E_i`, with the explicit
+error `E₀ + Σ s_i ⋆ E_{i+1}`; same or different radices (`_modulo_norm`: conditional on the kernel's value relation). -/
+theorem relin_result_phase_modulo_norm {N : Nat} (big128 : Bool) (rb rs : Nat) (g : GGLWE) (acc res : List Col)
+    (hm : acc.mapM (fun c => bigNormalizeOff big128 N rb rs 0 c g.base2k) = some res)
+    (hres : C02L.GWF N (Ks.mkCt rb N res)) (hacc : C02L.GWF N (Ks.mkCt g.base2k N acc))
+    (A B : Int) (E : Nat → Poly) (hE : ∀ i, (E i).length = N)
+    (hK : ∀ i, i < acc.length → ∀ C, bigNormalizeOff big128 N rb rs 0 (acc.getD i []) g.base2k = some C →
+      polyScale A (C02L.valP rb N C) = polyAdd (polyScale B (C02L.valP g.base2k N (acc.getD i []))) (E i))
+    (s : List Poly) :
+    polyScale A (C02L.valP rb N (Core.Ops.phase s (Ks.mkCt rb N res)))
+      = polyAdd (polyScale B (C02L.valP g.base2k N (Core.Ops.phase s (Ks.mkCt g.base2k N acc))))
+          (C02L.errTo (min (acc.length - 1) s.length) s E) :=
+  mapM_kernel_phase_modulo_norm _ rb g.base2k acc res hm hres hacc A B E hE hK s
+
+/-- **`mul_const_result_phase_modulo_norm`** — `glwe_mul_const` / `glwe_mul_const_assign`: the result is the column-wise normalisation
+(bit offset `lo` of the `cnv_offset` split, `cnvOffsetSplit_total`) of the exact constant convolutions `cnv_by_const_apply(hi, a_i, b)`; its phase
+relates to the phase of those accumulators as the kernel relates the columns (`B` carries the factor `2^{lo}`). -/
+theorem mul_const_result_phase_modulo_norm {N : Nat} (assign big128 : Bool) (rb rs off b : Nat) (a : List Col) (cst : List Int) (res : List Col)
+    (h : mulConst assign big128 N rb rs off b a cst = some res)
+    (hres : C02L.GWF N (Ks.mkCt rb N res))
+    (hacc : C02L.GWF N (Ks.mkCt b N (a.map (fun x => cnvByConstCol N
+      (if assign then rs else (a.getD 0 []).length + cst.length - (cnvOffsetSplit b off).1) (cnvOffsetSplit b off).1 x cst))))
+    (A B : Int) (E : Nat → Poly) (hE : ∀ i, (E i).length = N)
+    (hK : ∀ i, i < a.length → ∀ C,
+      bigNormalizeOff big128 N rb rs (cnvOffsetSplit b off).2
+        ((a.map (fun x => cnvByConstCol N (if assign then rs else (a.getD 0 []).length + cst.length - (cnvOffsetSplit b off).1)
+          (cnvOffsetSplit b off).1 x cst)).getD i []) b = some C →
+      polyScale A (C02L.valP rb N C) = polyAdd (polyScale B (C02L.valP b N
+        ((a.map (fun x => cnvByConstCol N (if assign then rs else (a.getD 0 []).length + cst.length - (cnvOffsetSplit b off).1)
+          (cnvOffsetSplit b off).1 x cst)).getD i []))) (E i))
+    (s : List Poly) :
+    polyScale A (C02L.valP rb N (Core.Ops.phase s (Ks.mkCt rb N res)))
+      = polyAdd (polyScale B (C02L.valP b N (Core.Ops.phase s (Ks.mkCt b N (a.map (fun x => cnvByConstCol N
+          (if assign then rs else (a.getD 0 []).length + cst.length - (cnvOffsetSplit b off).1) (cnvOffsetSplit b off).1 x cst))))))
+          (C02L.errTo (min (a.length - 1) s.length) s E) := by
+  have hm : (a.map (fun x => cnvByConstCol N (if assign then rs else (a.getD 0 []).length + cst.length - (cnvOffsetSplit b off).1)
+      (cnvOffsetSplit b off).1 x cst)).mapM (fun c => bigNormalizeOff big128 N rb rs (cnvOffsetSplit b off).2 c b) = some res := by
+    rw [← mapM_comp]
+    exact h
+  have := mapM_kernel_phase_modulo_norm _ rb b _ res hm hres hacc A B E hE (by simpa using hK) s
+  simpa using this
+
+example (s : List Poly) :
+    polyScale 16 (C02L.valP 4 1 (Core.Ops.phase s (Ks.mkCt 4 1 [[[6], [0]], [[2], [0]]])))
+      = polyAdd (polyScale 1 (C02L.valP 4 1 (Core.Ops.phase s (Ks.mkCt 4 1 ([[[3], [0]], [[1], [0]]].map (fun x => cnvByConstCol 1
+          (if false then 2 else ([[[3], [0]], [[1], [0]]].getD 0 []).length + [2].length - (cnvOffsetSplit 4 4).1) (cnvOffsetSplit 4 4).1 x [2]))))))
+          (C02L.errTo (min (2 - 1) s.length) s (fun _ => [0])) :=
+  mul_const_result_phase_modulo_norm (N := 1) false false 4 2 4 4 [[[3], [0]], [[1], [0]]] [2] [[[6], [0]], [[2], [0]]]
+    (by decide) (by decide) (by decide) 16 1 (fun _ => [0]) (fun _ => rfl)
+    (by
+      intro i hi C hC
+      have hi' : i = 0 ∨ i = 1 := by simp at hi; omega
+      rcases hi' with rfl | rfl
+      · have e : bigNormalizeOff false 1 4 2 (cnvOffsetSplit 4 4).2 (([[[3], [0]], [[1], [0]]].map (fun x => cnvByConstCol 1
+            (if false then 2 else ([[[3], [0]], [[1], [0]]].getD 0 []).length + [2].length - (cnvOffsetSplit 4 4).1) (cnvOffsetSplit 4 4).1 x [2])).getD 0 []) 4
+            = some [[6], [0]] := by decide
+        have hC' := e.symm.trans hC; injection hC' with hC'; subst hC'; decide
+      · have e : bigNormalizeOff false 1 4 2 (cnvOffsetSplit 4 4).2 (([[[3], [0]], [[1], [0]]].map (fun x => cnvByConstCol 1
+            (if false then 2 else ([[[3], [0]], [[1], [0]]].getD 0 []).length + [2].length - (cnvOffsetSplit 4 4).1) (cnvOffsetSplit 4 4).1 x [2])).getD 1 []) 4
+            = some [[2], [0]] := by decide
+        have hC' := e.symm.trans hC; injection hC' with hC'; subst hC'; decide) s
+
+/-- **`mul_plain_result_phase_modulo_norm`** — `glwe_mul_plain` / `glwe_mul_plain_assign`: the result is the column-wise normalisation (bit
+offset `lo`) of the exact convolutions `cnv_apply_dft(hi, a'_i, pt')` of the masked operands (`mask_keeps_top_bits`); its phase relates to the
+phase of those accumulators as the kernel relates the columns. -/
+theorem mul_plain_result_phase_modulo_norm {N : Nat} (big128 : Bool) (rb rs off b : Nat) (a : List Col) (aK : Nat) (pt : Col) (bK : Nat)
+    (res : List Col) (h : mulPlain big128 N rb rs off b a aK pt bK = some res)
+    (hres : C02L.GWF N (Ks.mkCt rb N res))
+    (hacc : C02L.GWF N (Ks.mkCt b N ((prepAll N (msbMaskBottomLimb b aK) a).map (fun x => Hal.cnvApplyCol N ((a.getD 0 []).length + pt.length - (cnvOffsetSplit b off).1) (cnvOffsetSplit b off).1 x (Hal.cnvPrepareCol N pt.length (msbMaskBottomLimb b bK) pt)))))
+    (A B : Int) (E : Nat → Poly) (hE : ∀ i, (E i).length = N)
+    (hK : ∀ i, i < a.length → ∀ C,
+      bigNormalizeOff big128 N rb rs (cnvOffsetSplit b off).2 (((prepAll N (msbMaskBottomLimb b aK) a).map (fun x => Hal.cnvApplyCol N ((a.getD 0 []).length + pt.length - (cnvOffsetSplit b off).1) (cnvOffsetSplit b off).1 x (Hal.cnvPrepareCol N pt.length (msbMaskBottomLimb b bK) pt))).getD i []) b = some C →
+      polyScale A (C02L.valP rb N C) = polyAdd (polyScale B (C02L.valP b N (((prepAll N (msbMaskBottomLimb b aK) a).map (fun x => Hal.cnvApplyCol N ((a.getD 0 []).length + pt.length - (cnvOffsetSplit b off).1) (cnvOffsetSplit b off).1 x (Hal.cnvPrepareCol N pt.length (msbMaskBottomLimb b bK) pt))).getD i []))) (E i))
+    (s : List Poly) :
+    polyScale A (C02L.valP rb N (Core.Ops.phase s (Ks.mkCt rb N res)))
+      = polyAdd (polyScale B (C02L.valP b N (Core.Ops.phase s (Ks.mkCt b N ((prepAll N (msbMaskBottomLimb b aK) a).map (fun x => Hal.cnvApplyCol N ((a.getD 0 []).length + pt.length - (cnvOffsetSplit b off).1) (cnvOffsetSplit b off).1 x (Hal.cnvPrepareCol N pt.length (msbMaskBottomLimb b bK) pt)))))))
+          (C02L.errTo (min (a.length - 1) s.length) s E) := by
+  have hm : ((prepAll N (msbMaskBottomLimb b aK) a).map (fun x => Hal.cnvApplyCol N ((a.getD 0 []).length + pt.length - (cnvOffsetSplit b off).1) (cnvOffsetSplit b off).1 x (Hal.cnvPrepareCol N pt.length (msbMaskBottomLimb b bK) pt))).mapM (fun c => bigNormalizeOff big128 N rb rs (cnvOffsetSplit b off).2 c b) = some res := by
+    rw [← mapM_comp]
+    exact h
+  have := mapM_kernel_phase_modulo_norm _ rb b _ res hm hres hacc A B E hE (by simpa [prepAll] using hK) s
+  simpa [prepAll] using this
+
+example (s : List Poly) :
+    polyScale 16 (C02L.valP 4 1 (Core.Ops.phase s (Ks.mkCt 4 1 [[[6], [0]], [[2], [0]]])))
+      = polyAdd (polyScale 1 (C02L.valP 4 1 (Core.Ops.phase s (Ks.mkCt 4 1 [[[6], [0], [0]], [[2], [0], [0]]]))))
+          (C02L.errTo (min (2 - 1) s.length) s (fun _ => [0])) :=
+  mul_plain_result_phase_modulo_norm (N := 1) false 4 2 4 4 [[[3], [0]], [[1], [0]]] 8 [[2]] 4 [[[6], [0]], [[2], [0]]]
+    (by decide) (by decide) (by decide) 16 1 (fun _ => [0]) (fun _ => rfl)
+    (by
+      intro i hi C hC
+      have hi' : i = 0 ∨ i = 1 := by simp at hi; omega
+      rcases hi' with rfl | rfl
+      · have e : bigNormalizeOff false 1 4 2 0 [[6], [0], [0]] 4 = some [[6], [0]] := by decide
+        have hC' := e.symm.trans hC; injection hC' with hC'; subst hC'; decide
+      · have e : bigNormalizeOff false 1 4 2 0 [[2], [0], [0]] 4 = some [[2], [0]] := by decide
+        have hC' := e.symm.trans hC; injection hC' with hC'; subst hC'; decide) s
 
 /-
 NOT PROVED (checked by correspondence on every generated case, see docs/C05.md):
